@@ -5,4 +5,5 @@ let () =
   | [| _; "cmp" |] -> Run_cmp.run ()
   | [| _; "bufmut" |] -> Run_bufmut.run ()
   | [| _; "heap" |] -> Run_heap.run ()
+  | [| _; "recycle" |] -> Run_recycle.run ()
   | _ -> prerr_endline "usage: modelrun <engine>"; exit 2
